@@ -153,6 +153,81 @@ theorem odijk_distance_force (d Lp Lc St kT : ℝ) (hLp : 0 < Lp) (hLc : 0 < Lc)
   ((odijk_cubic_iff _ d Lp Lc St kT hF hLp hLc hSt hkT).mpr
     ⟨calcCubicRoot_is_root _ _ _ 2, hsel⟩).symm
 
+/-! ## the selected root is the physical one (ext) -/
+
+/-- Odijk: for every distance (also beyond the contour length, also negative) and positive
+    parameters, the root `ewlc_odijk_force` selects (index 2: Cardano's value when `det ≥ 0`, the
+    largest trigonometric root when `det < 0`) is positive and at least `α·S_t`. -/
+theorem odijk_selected_root (d Lp Lc St kT : ℝ) (hLp : 0 < Lp) (hSt : 0 < St) (hkT : 0 < kT) :
+    0 < odijkForce d Lp Lc St kT ∧ (d / Lc - 1) * St ≤ odijkForce d Lp Lc St kT :=
+  odijk_selected_root_aux d Lp Lc St kT hLp hSt hkT
+
+/-- …which upgrades `odijk_cubic_iff` to the round trips outright:
+    `distance(force(d)) = d` for **every** real `d`, -/
+theorem odijk_distance_of_force (d Lp Lc St kT : ℝ) (hLp : 0 < Lp) (hLc : 0 < Lc) (hSt : 0 < St)
+    (hkT : 0 < kT) :
+    odijkDistance (odijkForce d Lp Lc St kT) Lp Lc St kT = d :=
+  odijk_distance_force d Lp Lc St kT hLp hLc hSt hkT
+    (odijk_selected_root d Lp Lc St kT hLp hSt hkT).1 (odijk_selected_root d Lp Lc St kT hLp hSt hkT).2
+
+/-- and `force(distance(F)) = F` for every positive force. -/
+theorem odijk_force_of_distance (F Lp Lc St kT : ℝ) (hF : 0 < F) (hLp : 0 < Lp) (hLc : 0 < Lc)
+    (hSt : 0 < St) (hkT : 0 < kT) :
+    odijkForce (odijkDistance F Lp Lc St kT) Lp Lc St kT = F := by
+  have hsel := odijk_selected_root (odijkDistance F Lp Lc St kT) Lp Lc St kT hLp hSt hkT
+  exact odijkDistance_injective _ F Lp Lc St kT hsel.1 hF hLp hLc hSt hkT
+    (odijk_distance_of_force (odijkDistance F Lp Lc St kT) Lp Lc St kT hLp hLc hSt hkT)
+
+example : ∃ F Lp Lc St kT : ℝ, 0 < F ∧ 0 < Lp ∧ 0 < Lc ∧ 0 < St ∧ 0 < kT :=
+  ⟨10, 40, 16, 1500, 4.11, by norm_num, by norm_num, by norm_num, by norm_num, by norm_num⟩
+
+/-- `calc_cubic_root` with three real roots (`det < 0`): index 1 is the smallest and index 2 the
+    largest real root of the depressed cubic. -/
+theorem trig_root_order (p q : ℝ) (hdet : disc p q < 0) (r : ℝ) (hr : r ^ 3 + p * r + q = 0) :
+    trigRoot p q 1 ≤ r ∧ r ≤ trigRoot p q 2 := by
+  rw [disc_real] at hdet
+  exact trig_root_order_aux p q hdet r hr
+
+example : ∃ p q r : ℝ, disc p q < 0 ∧ r ^ 3 + p * r + q = 0 :=
+  ⟨-1, 0, 1, by rw [disc_real]; norm_num, by norm_num⟩
+
+/-
+  ext `ms_selected_root` (NOT proved): for `F > 0` the root `wlc_marko_siggia_distance` selects
+  (index 1) lies in `[0, L_c)`, which would upgrade `ms_cubic_iff` / `ms_force_distance` to
+  `msForce (msDistance F ..) .. = F` without the side condition `msDistance F .. < Lc`.
+      theorem ms_selected_root (F Lp Lc kT : ℝ) (hF : 0 < F) (hLp : 0 < Lp) (hLc : 0 < Lc) (hkT : 0 < kT) :
+          0 ≤ msDistance F Lp Lc kT ∧ msDistance F Lp Lc kT < Lc
+  Proved fragment: `ms_selected_root_partial` — in the three-real-root regime (`det < 0`) the
+  selected value is the SMALLEST real root of the Marko–Siggia cubic.  Missing: the smallest root
+  is the one below `L_c` (sign pattern `P(0) < 0 < P(L_c)` + intermediate value), and the Cardano
+  regime (`det ≥ 0`: uniqueness of the real root / the double-root boundary).
+-/
+theorem ms_selected_root_partial (F Lp Lc kT : ℝ)
+    (hdet : disc (depP (msDistanceCoeffs F Lp Lc kT).1 (msDistanceCoeffs F Lp Lc kT).2.1)
+                 (depQ (msDistanceCoeffs F Lp Lc kT).1 (msDistanceCoeffs F Lp Lc kT).2.1
+                       (msDistanceCoeffs F Lp Lc kT).2.2) < 0)
+    (r : ℝ)
+    (hr : r ^ 3 + (msDistanceCoeffs F Lp Lc kT).1 * r ^ 2 + (msDistanceCoeffs F Lp Lc kT).2.1 * r
+            + (msDistanceCoeffs F Lp Lc kT).2.2 = 0) :
+    msDistance F Lp Lc kT ≤ r := by
+  set a := (msDistanceCoeffs F Lp Lc kT).1 with ha
+  set b := (msDistanceCoeffs F Lp Lc kT).2.1 with hb
+  set c := (msDistanceCoeffs F Lp Lc kT).2.2 with hc
+  have hms : msDistance F Lp Lc kT = calcCubicRoot a b c 1 := rfl
+  rw [hms, calcCubicRoot_real, depressedRoot_real, if_neg (not_le.mpr hdet)]
+  have hr' : (r + a / 3) ^ 3 + depP a b * (r + a / 3) + depQ a b c = 0 := by
+    rw [depP_real, depQ_real]; linear_combination hr
+  have := (trig_root_order (depP a b) (depQ a b c) hdet (r + a / 3) hr').1
+  linarith
+
+-- the three-real-root regime occurs for the Marko–Siggia cubic (F Lp/kT = 10: roots ≈ 0.86, 1.17, 10.2)
+example : disc (depP (msDistanceCoeffs (10 : ℝ) 1 1 1).1 (msDistanceCoeffs (10 : ℝ) 1 1 1).2.1)
+               (depQ (msDistanceCoeffs (10 : ℝ) 1 1 1).1 (msDistanceCoeffs (10 : ℝ) 1 1 1).2.1
+                     (msDistanceCoeffs (10 : ℝ) 1 1 1).2.2) < 0 := by
+  simp only [msDistanceCoeffs]
+  rw [disc_real, depP_real, depQ_real]
+  norm_num
+
 /-! ## model algebra: composites, offsets, inverses, DNA parametrisations -/
 
 section algebra
